@@ -651,7 +651,7 @@ def x_did_types_GenesisDIDDocumentKey_Marshal : List String := ["return _"]
 def x_did_types_GenesisDIDDocumentKey_Unmarshal : List String := ["assign did := key", "if !ValidateDID(did)", "call ValidateDID(did)", "return _", "call errors.Wrapf(ErrInvalidDID, _, key)", "assign k.DID = did", "return nil"]
 
 /-- x/did/types.GenesisState.Validate -/
-def x_did_types_GenesisState_Validate : List String := ["range data.Documents", "if err != nil", "assign err := key.Unmarshal(bz)", "call key.Unmarshal(bz)", "return err", "if !doc.Valid()", "call doc.Valid()", "return _", "call errors.Wrapf(ErrInvalidDIDDocumentWithSeq, _, doc)", "if doc.Sequence == math.MaxUint64", "return _", "call errors.Wrapf(ErrInvalidDIDDocumentWithSeq, _, key.DID, doc.Sequence)", "if !doc.Document.Empty() && doc.Document.Id != key.DID", "call _.Empty()", "return _", "call errors.Wrapf(ErrInvalidDIDDocumentWithSeq, _, doc.Document.Id, key.DID)", "return nil"]
+def x_did_types_GenesisState_Validate : List String := ["range data.Documents", "if err != nil", "assign err := key.Unmarshal(bz)", "call key.Unmarshal(bz)", "return err", "if !doc.Valid()", "call doc.Valid()", "return _", "call errors.Wrapf(ErrInvalidDIDDocumentWithSeq, _, doc)", "if !doc.Document.Empty() && doc.Document.Id != key.DID", "call _.Empty()", "return _", "call errors.Wrapf(ErrInvalidDIDDocumentWithSeq, _, doc.Document.Id, key.DID)", "return nil"]
 
 /-- x/did/types.JSONStringOrStrings.Marshal -/
 def x_did_types_JSONStringOrStrings_Marshal : List String := ["return _", "call proto.Marshal(strings.protoType())", "call strings.protoType()"]
